@@ -284,7 +284,18 @@ func confusedProgram() (*telemetry.ProgramReport, string) {
 		}
 		return Pick(vrnd, forGo)
 	}
-	switch vrnd.Intn(6) {
+	switch vrnd.Intn(9) {
+	case 6: // (g) an approved counter name followed by a newline and free text: plain counters are judged by their WHOLE name
+		base := pick([]string{"editor:vim", "editor:emacs", "plain"}, []string{"go/invocations", "flag:a", "go/extra"})
+		p.Counters[base+Pick(vrnd, []string{"\n", "\n/home/alice/secret-project/main.go:12", "\nmain.main:3\nruntime.main:1", "\n\n", "\nx"})] = 1 + vrnd.Int63n(9)
+		return p, "counter-name-plus-newline-text"
+	case 7: // (h) a whole stack record (approved stack name + frames) filed under Counters
+		p.Counters[pick([]string{"gopls/bug\nruntime.main:1", "gopls/bug\n"}, []string{"go/crash\nmain.main:3", "go/crash\n"})] = 1
+		return p, "stack-record-as-counter"
+	case 8: // (i) stack names that only CONTAIN an approved name after the first newline, or before a different separator
+		p.Stacks[pick([]string{"unknown\ngopls/bug", "\ngopls/bug\nf:1", "gopls/bug \nf:1", "gopls/bug\tf:1", "gopls/bug\r\nf:1"},
+			[]string{"unknown\ngo/crash", "\ngo/crash", "go/crash \nmain.main:3", "go/crash\r\nmain.main:3"})] = 1
+		return p, "stack-name-not-before-first-newline"
 	case 0: // (a) a configured STACK name of the same program used as a plain counter
 		p.Counters[pick([]string{"gopls/bug"}, []string{"go/crash"})] = 1 + vrnd.Int63n(9)
 		return p, "stack-name-as-counter"
